@@ -799,7 +799,8 @@ pub fn select_a(f: &Factors, want: usize, v: Verbosity) -> Vec<Uint> {
         }
         // A is smaller than sqrt(n) so 256-bit arithmetic is enough.
         let mut product = U256::one();
-        let mut mask = 0u64;
+        // One bit per candidate prime: there are 4 * nfacs of them (more than 64 from 425 bits on).
+        let mut mask = 0u128;
         while mask.count_ones() < f.nfacs as u32 - 1 {
             let g = gen();
             if mask & (1 << g) == 0 {
